@@ -85,3 +85,22 @@ PROPS = {
 NOT_APPLICABLE = {
     'C16': 'pure function of program text (compliance rules): no schedule, clock, I/O fault, crash point or second party for a simulator to own; generating packages and rule violations would be input generation, not simulation (DESIGN.md section 6)',
 }
+
+
+def _load_extra():
+    """every checks/p_*.py contributes its own PROPS / NOT_APPLICABLE (one file per world, so that
+    worlds can be developed independently)"""
+    import glob
+    import importlib.util
+    import os
+
+    here = os.path.dirname(os.path.abspath(__file__))
+    for path in sorted(glob.glob(os.path.join(here, 'p_*.py'))):
+        spec = importlib.util.spec_from_file_location('checks_' + os.path.basename(path)[:-3], path)
+        mod = importlib.util.module_from_spec(spec)
+        spec.loader.exec_module(mod)
+        PROPS.update(getattr(mod, 'PROPS', {}))
+        NOT_APPLICABLE.update(getattr(mod, 'NOT_APPLICABLE', {}))
+
+
+_load_extra()
